@@ -5,7 +5,7 @@
 
 use crate::grid::*;
 use crate::types::user::*;
-use crate::types::{Attribute, GenericValue, Status};
+use crate::types::{Attribute, Gap, GenericValue, OneTuple, Pair, Priority, ReprU8, Status, Tuple5};
 use crate::viol::Collector;
 use agdb::{DbAny, DbElement, DbError, DbId, DbType, QueryBuilder, QueryId, QueryResult};
 use engine::{Args, DistinctCounter, Report, Scratch, catch, par_for};
@@ -436,6 +436,24 @@ impl UserCase for ElemShapes {
     }
 }
 
+impl UserCase for DeclShapes {
+    const NAME: &'static str = "DeclShapes";
+    const HAS_ID: bool = true;
+    fn grid(b: usize) -> Vec<Self> {
+        field_product!(b; prio: Priority, oprio: Option<Priority>, vprio: Vec<Priority>, gap: Gap, vrepr: Vec<ReprU8>, orepr: Option<ReprU8>, one: OneTuple, vone: Vec<OneTuple>, t5: Tuple5, pair: Pair<u64, String>, opair: Option<Pair<Priority, Gap>>;
+            DeclShapes { db_id: None, prio, oprio, vprio, gap, vrepr, orepr, one, vone, t5, pair, opair })
+    }
+    fn with_id(&self, id: DbId) -> Self {
+        DeclShapes { db_id: Some(id), ..self.clone() }
+    }
+    fn same(&self, o: &Self) -> bool {
+        same_fields!(self, o; db_id, prio, oprio, vprio, gap, vrepr, orepr, one, vone, t5, pair, opair)
+    }
+    fn none_from(&self, old: &Self) -> Self {
+        DeclShapes { oprio: self.oprio.or(old.oprio), orepr: self.orepr.or(old.orepr), opair: self.opair.clone().or(old.opair.clone()), ..self.clone() }
+    }
+}
+
 // ---------------------------------------------------------------------------
 
 struct Fail {
@@ -614,6 +632,7 @@ fn runners() -> Vec<TypeRunner> {
         runner::<FlattenShapes>(),
         runner::<FlattenPlain>(),
         runner::<ElemShapes>(),
+        runner::<DeclShapes>(),
     ]
 }
 
